@@ -596,6 +596,12 @@ def walk_exprs(e):
         yield from walk_exprs(e["a"])
     elif k == "attr":
         yield from walk_exprs(e["o"])
+    elif k == "mklist":
+        for a in e["es"]:
+            yield from walk_exprs(a)
+    elif k == "sub":
+        yield from walk_exprs(e["o"])
+        yield from walk_exprs(e["i"])
     elif k == "call":
         yield from walk_exprs(e["f"])
         for a in e["args"]:
@@ -611,18 +617,48 @@ def walk_stmts(body):
             yield from walk_stmts(s["body"])
 
 
+def target_exprs(t):
+    """the expressions a target evaluates (container / index / object), mirror of PyScope.TExprs"""
+    if t["k"] == "tsub":
+        yield t["o"]
+        yield t["i"]
+    elif t["k"] == "tattr":
+        yield t["o"]
+    elif t["k"] == "ttuple":
+        for u in t["ts"]:
+            yield from target_exprs(u)
+
+
+def target_binds(t):
+    """the names a target binds, mirror of PyScope.TBinds"""
+    if t["k"] == "tname":
+        return {t["x"]}
+    if t["k"] == "ttuple":
+        return set().union(*[target_binds(u) for u in t["ts"]]) if t["ts"] else set()
+    return set()
+
+
+def stmt_targets(s):
+    return s["ts"] if s["k"] == "store" else [s["t"]] if s["k"] in ("fort", "witht") else []
+
+
 def stmt_exprs(s):
-    for key in ("e", "o"):
+    for key in ("e", "o", "i"):
         if key in s and isinstance(s[key], dict) and "k" in s[key]:
             yield from walk_exprs(s[key])
     for d in s.get("decos", []):
         yield from walk_exprs(d)
+    for t in stmt_targets(s):
+        for e in target_exprs(t):
+            yield from walk_exprs(e)
 
 
 def binds_name(s, x):
     """does statement s (or a statement nested in its blocks) bind or delete the name x"""
     for t in walk_stmts([s]):
         if t.get("x") == x or any(e["k"] == "walrus" and e["x"] == x for e in stmt_exprs(t)):
+            return True
+        if any(x in target_binds(u) for u in stmt_targets(t)):
             return True
     return False
 
@@ -631,8 +667,10 @@ def binds_of(code):
     """names bound in the code's own block (mirror of PyScope.BindsS; used for masks and statistics only)"""
     out = set()
     for s in walk_stmts(code["body"]):
-        if s["k"] in ("assign", "def", "class", "del", "for", "with", "tryexc"):
+        if s["k"] in ("assign", "def", "class", "del", "for", "with", "tryexc", "annassign"):
             out.add(s["x"])
+        for t in stmt_targets(s):
+            out |= target_binds(t)
         for e in stmt_exprs(s):
             if e["k"] == "walrus":
                 out.add(e["x"])
@@ -721,6 +759,12 @@ def loci(codes):
                     out.add("nested-default")
         if kind == "func" and code["globals"] and any(s["k"] == "del" and s["x"] in code["globals"] for s in walk_stmts(code["body"])):
             out.add("del-global")
+        if kind == "func":
+            # an annotated assignment of a name that a nested code object mentions
+            ann = {s["x"] for s in walk_stmts(code["body"]) if s["k"] == "annassign"}
+            if ann and any(i in chain(j) and ann & (names_read(cj) | binds_of(cj) | set(cj["nonlocals"]) | set(cj["globals"]))
+                           for j, cj in enumerate(codes)):
+                out.add("ann-captured")
         if kind == "func":
             # a nonlocal name the function binds whose owner is not the function directly around (class bodies skipped)
             for x in set(code["nonlocals"]) & binds_of(code):
@@ -828,6 +872,10 @@ def render(codes):
             return "%s.%s" % (rex(e["o"]), e["a"])
         if k == "sub1":
             return "(%s - 1)" % rex(e["a"])
+        if k == "mklist":
+            return "[%s]" % ", ".join(rex(a) for a in e["es"])
+        if k == "sub":
+            return "%s[%s]" % (rex(e["o"]), rex(e["i"]))
         if k == "walrus":
             return "(%s := %s)" % (e["x"], rex(e["a"]))
         if k == "lambda":
@@ -836,6 +884,18 @@ def render(codes):
         if k == "comp":
             c = codes[e["c"] - 1]
             return "[%s for %s in (%s)]" % (rex(c["expr"]), c["x"], "".join("%d, " % n for n in e["ns"]))
+        raise ValueError(k)
+
+    def rtarget(t):
+        k = t["k"]
+        if k == "tname":
+            return t["x"]
+        if k == "tsub":
+            return "%s[%s]" % (rex(t["o"]), rex(t["i"]))
+        if k == "tattr":
+            return "%s.%s" % (rex(t["o"]), t["a"])
+        if k == "ttuple":
+            return "(%s)" % "".join(rtarget(u) + ", " for u in t["ts"])
         raise ValueError(k)
 
     def block(body, ind):
@@ -901,6 +961,20 @@ def render(codes):
             block(s["body"], ind + 4)
         elif k == "setattr":
             out.append("%s%s.%s = %s" % (p, rex(s["o"]), s["a"], rex(s["e"])))
+        elif k == "store":
+            out.append("%s%s = %s" % (p, " = ".join(rtarget(t) for t in s["ts"]), rex(s["e"])))
+        elif k == "annassign":
+            out.append("%s%s: int = %s" % (p, s["x"], rex(s["e"])))
+        elif k == "augsub":
+            out.append("%s%s[%s] -= 1" % (p, rex(s["o"]), rex(s["i"])))
+        elif k == "delsub":
+            out.append("%sdel %s[%s]" % (p, rex(s["o"]), rex(s["i"])))
+        elif k == "fort":
+            out.append("%sfor %s in (%s):" % (p, rtarget(s["t"]), "".join("%d, " % n for n in s["ns"])))
+            block(s["body"], ind + 4)
+        elif k == "witht":
+            out.append("%swith cm(%s) as %s:" % (p, rex(s["e"]), rtarget(s["t"])))
+            block(s["body"], ind + 4)
         else:
             raise ValueError(k)
 
@@ -1206,6 +1280,207 @@ def cap_program(member, rs):
                        "ambiguous": stack not in ("once", "escape-module")}}
 
 
+# ------------------------------------------------------------------------------ the mention family
+# WHERE does a closure mention the variable it captures?  pyscript decides what a function captures by a static
+# pre-pass over its body that dispatches on the kind of every syntax node; a name is captured only if the pre-pass
+# visits the place where it stands.  Systematic family (round 4): an owner f0(p0) binds a variable x in one of the
+# binding forms MEN_BIND; a capturer K - reached along `via` - mentions x at exactly ONE syntactic position
+# (MEN_POS: inside assignment / for / with / del / augmented-assignment targets as container or as index, as a
+# value in the argument, return, test, context, walrus and list-display positions, as callee, as the object of an
+# attribute store / load / method call); K is called in the owner and once more after the owner returned; the
+# owner reads the effect.  The expected log of every member is computed by the PyScope machine.
+MEN_POS = (  # (position, role of x)
+    ("st", "c"), ("aug", "c"), ("del", "c"), ("tup", "c"), ("chain", "c"), ("for", "c"), ("with", "c"), ("load", "c"),
+    ("st", "i"), ("aug", "i"), ("del", "i"), ("tup", "i"), ("chain", "i"), ("for", "i"), ("with", "i"), ("load", "i"),
+    ("stv", "v"), ("arg", "v"), ("kwarg", "v"), ("ret", "v"), ("test", "v"), ("withctx", "v"), ("sub1", "v"),
+    ("walrus", "v"), ("listv", "v"), ("callee", "f"), ("attrst", "o"), ("attrld", "o"), ("mcall", "o"))
+MEN_VIA = ("direct", "fn", "cls")
+MEN_BIND = ("param", "assign", "ann", "chain", "tuple", "with", "walrus", "for")
+MEN_TARGET_POS = ("st", "aug", "del", "tup", "chain", "for", "with")      # x stands inside a target
+MEN_NAMES = ["v0", "v1", "v2", "p0", "f0", "f1", "f2", "f5", "C0", "C1", "m0", "q0", "self", "o0", "o1", "int", "__init__"]
+
+
+def men_members(nbind=1, shift=0):
+    """quick: every (position, via) with one binding form, rotating (shift: the run's seed); thorough: nbind forms"""
+    out = []
+    for pi, (pos, role) in enumerate(MEN_POS):
+        for vi, via in enumerate(MEN_VIA):
+            for b in range(nbind):
+                out.append((pos, role, via, MEN_BIND[(pi * 3 + vi + shift + b * 3) % len(MEN_BIND)]))
+    return out
+
+
+def men_id(member, rs):
+    return "n:%s/%s/%s/%s/%d" % (tuple(member) + (rs,))
+
+
+def men_program(member, rs):
+    pos, role, via, bind = member
+    r = random.Random(rs * 1000003 + hash_str("/".join(member)))
+    codes = [None]
+    nsite = [0]
+
+    def S():
+        nsite[0] += 1
+        return nsite[0]
+
+    def K(n=[0]):
+        n[0] += 1
+        return I(100 * r.randint(1, 9) + n[0])
+
+    def ev(a, s=None):
+        return {"k": "ev", "s": s or S(), "a": a}
+
+    def call(f, *args, **kws):
+        return {"k": "call", "f": f, "args": list(args), "kws": [{"n": k, "e": v} for k, v in kws.items()]}
+
+    def add(code):
+        codes.append(code)
+        return len(codes)
+
+    def sig(*pk):
+        sg = EMPTY_SIG()
+        sg["pk"] = list(pk)
+        return sg
+
+    def sub(o, i):
+        return {"k": "sub", "o": o, "i": i}
+
+    def tsub(o, i):
+        return {"k": "tsub", "o": o, "i": i}
+
+    def tname(x_):
+        return {"k": "tname", "x": x_}
+
+    def mklist(*es):
+        return {"k": "mklist", "es": list(es)}
+
+    if bind == "for" and role not in ("i", "v"):
+        bind = "assign"                       # a for loop binds ints here
+    x = "p0" if bind == "param" else "v0"
+    method = via == "cls"
+    a = 0 if role == "i" else r.randint(2, 9) * 10
+    # the value of x, written where the owner binds it (param: where the module calls the owner)
+    xval = {"c": mklist(I(a) if bind == "param" else N("p0"), K()), "i": N("p0"), "v": N("p0"), "f": N("f5"),
+            "o": call(N("C1"))}[role]
+    if bind == "param":
+        xval = {"i": I(a), "v": I(a)}.get(role, xval)
+    # ---- the capturer: x occurs exactly once
+    tgt = tsub(N(x), I(0)) if role == "c" else tsub(N("o0"), N(x))
+    ld = sub(N(x), I(0)) if role == "c" else sub(N("o0"), N(x))
+    kret = [{"k": "ret", "e": K(), "g": 0}]
+    kbody = {
+        "st": lambda: [{"k": "store", "ts": [tgt], "e": K(), "g": 0}] + kret,
+        "aug": lambda: [{"k": "augsub", "o": tgt["o"], "i": tgt["i"], "g": 0}] + kret,
+        "del": lambda: [{"k": "delsub", "o": tgt["o"], "i": tgt["i"], "g": 0}] + kret,
+        "tup": lambda: [{"k": "store", "ts": [{"k": "ttuple", "ts": [tgt, tname("v1")]}], "e": mklist(K(), K()), "g": 0},
+                        {"k": "ret", "e": N("v1"), "g": 0}],
+        "chain": lambda: [{"k": "store", "ts": [tname("v1"), tgt], "e": K(), "g": 0}, {"k": "ret", "e": N("v1"), "g": 0}],
+        "for": lambda: [{"k": "fort", "t": tgt, "ns": [K()["n"], K()["n"]], "body": [], "g": 0}] + kret,
+        "with": lambda: [{"k": "witht", "t": tgt, "e": K(), "body": [], "g": 0}] + kret,
+        "load": lambda: [{"k": "ret", "e": ev(ld), "g": 0}],
+        "stv": lambda: [{"k": "store", "ts": [tsub(N("o0"), I(0))], "e": N(x), "g": 0}] + kret,
+        "arg": lambda: [{"k": "ret", "e": ev(call(N("f5"), N(x))), "g": 0}],
+        "kwarg": lambda: [{"k": "ret", "e": ev(call(N("f5"), p0=N(x))), "g": 0}],
+        "ret": lambda: [{"k": "ret", "e": N(x), "g": 0}],
+        "test": lambda: [{"k": "ifpos", "e": N(x), "body": [{"k": "expr", "e": ev(K()), "g": 0}], "g": 0}] + kret,
+        "withctx": lambda: [{"k": "with", "x": "v1", "e": N(x), "body": [{"k": "expr", "e": ev(N("v1")), "g": 0}], "g": 0}] + kret,
+        "sub1": lambda: [{"k": "ret", "e": ev({"k": "sub1", "a": N(x)}), "g": 0}],
+        "walrus": lambda: [{"k": "ret", "e": ev({"k": "walrus", "x": "v1", "a": N(x)}), "g": 0}],
+        "listv": lambda: [{"k": "ret", "e": ev(sub(mklist(N(x), K()), I(0))), "g": 0}],
+        "callee": lambda: [{"k": "ret", "e": ev(call(N(x), K())), "g": 0}],
+        "attrst": lambda: [{"k": "store", "ts": [{"k": "tattr", "o": N(x), "a": "q0"}], "e": K(), "g": 0}] + kret,
+        "attrld": lambda: [{"k": "ret", "e": ev({"k": "attr", "o": N(x), "a": "q0"}), "g": 0}],
+        "mcall": lambda: [{"k": "ret", "e": ev(call({"k": "attr", "o": N(x), "a": "m0"})), "g": 0}],
+    }[pos]()
+    ki = add(new_code("func", sig=sig("self") if method else EMPTY_SIG(), body=kbody))
+    kev, kg = S(), S()
+    if method:
+        ci = add(new_code("class", body=[{"k": "def", "x": "m0", "c": ki, "decos": [], "g": 0}]))
+        holder = [{"k": "class", "x": "C0", "c": ci, "g": 0},
+                  {"k": "assign", "x": "v2", "e": call(N("C0")), "g": 0},
+                  {"k": "expr", "e": ev(call({"k": "attr", "o": N("v2"), "a": "m0"}), kev), "g": kg},
+                  {"k": "push", "e": N("v2"), "g": 0}]
+    else:
+        holder = [{"k": "def", "x": "f2", "c": ki, "decos": [], "g": 0},
+                  {"k": "expr", "e": ev(call(N("f2")), kev), "g": kg},
+                  {"k": "push", "e": N("f2"), "g": 0}]
+    if via == "fn":
+        mi = add(new_code("func", body=holder))
+        core = [{"k": "def", "x": "f1", "c": mi, "decos": [], "g": 0}, {"k": "expr", "e": call(N("f1")), "g": S()}]
+    else:
+        core = holder
+    # ---- the owner: binds x in the form `bind`, runs the core, reads the effect
+    obind = {
+        "param": lambda: [],
+        "assign": lambda: [{"k": "assign", "x": "v0", "e": xval, "g": 0}],
+        "ann": lambda: [{"k": "annassign", "x": "v0", "e": xval, "g": 0}],
+        "chain": lambda: [{"k": "store", "ts": [tname("v1"), tname("v0")], "e": xval, "g": 0}],
+        "tuple": lambda: [{"k": "store", "ts": [{"k": "ttuple", "ts": [tname("v0"), tname("v1")]}], "e": mklist(xval, K()), "g": 0}],
+        "with": lambda: [{"k": "with", "x": "v0", "e": xval, "body": [], "g": 0}],
+        "walrus": lambda: [{"k": "expr", "e": {"k": "walrus", "x": "v0", "a": xval}, "g": 0}],
+        "for": lambda: [{"k": "for", "x": "v0", "it": {"k": "ints", "ns": [a]}, "body": [], "g": 0}],
+    }[bind]()
+    eff = []
+    effect_sites = []
+
+    def read(e):
+        st = S()
+        effect_sites.append(st)
+        eff.append({"k": "expr", "e": ev(e, st), "g": S()})
+    if role == "c":
+        read(N(x))
+        read(sub(N(x), I(0)))
+    elif role == "o":
+        read({"k": "attr", "o": N(x), "a": "q0"})
+    oi = add(new_code("func", sig=sig("p0"), body=obind + core + eff))
+    # ---- the module
+    mbody = []
+    if role == "i" or pos == "stv":
+        mbody.append({"k": "assign", "x": "o0", "e": mklist(K(), K(), K()), "g": 0})
+    if role in ("v", "f"):
+        fi = add(new_code("func", sig=sig("p0"), body=[{"k": "ret", "e": ev(N("p0")), "g": 0}]))
+        mbody.append({"k": "def", "x": "f5", "c": fi, "decos": [], "g": 0})
+    if role == "o":
+        mi_ = add(new_code("func", sig=sig("self"), body=[{"k": "ret", "e": ev({"k": "attr", "o": N("self"), "a": "q0"}), "g": 0}]))
+        c1 = add(new_code("class", body=[{"k": "assign", "x": "q0", "e": K(), "g": 0},
+                                         {"k": "def", "x": "m0", "c": mi_, "decos": [], "g": 0}]))
+        mbody.append({"k": "class", "x": "C1", "c": c1, "g": 0})
+    if r.random() < 0.5 and x != "p0":
+        mbody.append({"k": "assign", "x": x, "e": I(777), "g": 0})          # a decoy global named like the variable
+    mbody.append({"k": "def", "x": "f0", "c": oi, "decos": [], "g": 0})
+    mbody.append({"k": "expr", "e": ev(call(N("f0"), xval if bind == "param" else I(a))), "g": S()})
+    later = call({"k": "attr", "o": N("o1"), "a": "m0"}) if method else call(N("o1"))
+    mbody.append({"k": "for", "x": "o1", "it": {"k": "box"}, "body": [{"k": "expr", "e": ev(later), "g": S()}], "g": 0})
+    if role == "i" or pos == "stv":
+        for e in (N("o0"), sub(N("o0"), I(0))):
+            st = S()
+            effect_sites.append(st)
+            mbody.append({"k": "expr", "e": ev(e, st), "g": S()})
+    codes[0] = new_code("module", body=mbody)
+    # corrupted recordings of this kind: the effect of K's statement is lost / K raised NameError where it is called
+    corr = [{"name": "lost", "site": st, "to": "inc"} for st in effect_sites[-1:]]
+    corr.append({"name": "uncaptured", "site": kev, "to": {"s": kg, "k": "NameError", "n": 0}})
+    return {"seed": men_id(member, rs), "codes": codes, "names": MEN_NAMES, "corruptions": corr,
+            "family": {"fam": "mention", "pos": pos, "role": role, "via": via, "bind": bind,
+                       "encsub": pos in MEN_TARGET_POS, "ann": bind == "ann"}}
+
+
+def apply_corruption(log, c):
+    """the log with the first event at site c['site'] changed (value + 1, or replaced); None if there is none"""
+    for j, e in enumerate(log):
+        if e["s"] == c["site"]:
+            lg = copy.deepcopy(log)
+            if c["to"] == "inc":
+                if e["k"] not in ("int", "list"):
+                    return None
+                lg[j]["n"] += 1
+            else:
+                lg[j] = dict(c["to"])
+            return lg
+    return None
+
+
 def hash_str(t):
     import zlib
     return zlib.crc32(t.encode())
@@ -1275,7 +1550,8 @@ def work_scope(job):
             continue
         progs.append((seed, not loci(g[0])) + g)
     extra = {}
-    for c in (job.get("explicit") or []) + [cap_program(tuple(m), rs) for m, rs in job.get("capture") or []]:
+    for c in ((job.get("explicit") or []) + [cap_program(tuple(m), rs) for m, rs in job.get("capture") or []]
+              + [men_program(tuple(m), rs) for m, rs in job.get("mention") or []]):
         progs.append((c["seed"], not loci(c["codes"]), c["codes"], render(c["codes"]), {}))
         extra[c["seed"]] = c
     stats["swap"] = []
@@ -1325,6 +1601,12 @@ def work_scope(job):
                     logs.append(("corrupt-swap", lg))
                     stats["corrupt"].append([pid, "corrupt-swap"])
                     stats["swap"].append(pid)
+            for c in (x.get("corruptions") or []) if clog == plog else []:
+                lg = apply_corruption(plog, c)
+                if lg is not None:
+                    logs.append(("corrupt-" + c["name"], lg))
+                    stats["corrupt"].append([pid, "corrupt-" + c["name"]])
+                    stats["mention_corrupt"] = stats.get("mention_corrupt", 0) + 1
             cases.append(case_of(pid, codes, logs, x.get("names")))
             meta[pid] = {"seed": seed, "masked": masked, "loci": sorted(loci(codes)), "src": src, "constructs": sorted(cs)}
             if "family" in x:
